@@ -6,6 +6,7 @@ Decided clauses (validation discipline):
       on the user parameter runs after the first store (object unchanged on rejection)
   S2  the value stored by each array-valued setter is a fresh copy (ORIGIN analysis, origin_rules.c17_s2)
   S3  the shape documented in the validator call's `sig_type` text agrees with its configuration (dims / shape_m1 / length)
+  S3b every relational constraint a validator documents in its error text is enforced by a raising comparison of the same quantities
   S4  every constraint argument a call site passes to a validator is consulted on every accepting path of the validator
       (literal keyword arguments partially evaluated into the validator and its helpers)
   S5  None-flow: the result of a validator called with allow_None=True reaches no arithmetic / norm / comparison unguarded
@@ -236,6 +237,51 @@ def s3(repo, res):
     res.analysed["validator_call_sites"] = n_sites
     res.analysed["S3_parsed"] = parsed
     res.require(parsed >= 10, f"S3: only {parsed} documented shapes parsed (expected >= 10)")
+
+
+def s3b(repo, res):
+    """documented relational constraints (e.g. "r1<r2, phi1<phi2 and phi2-phi1<=360" in a validator's sig_type text) are each enforced by
+    a raising comparison of the same quantities in that validator"""
+    ic = repo.mod("magpylib._src.input_checks")
+    n = 0
+    rel = re.compile(r"([A-Za-z_][\w]*(?:\s*[-+]\s*[A-Za-z_][\w]*)?)\s*(<=|>=|<|>)\s*([A-Za-z_][\w]*|\d+(?:\.\d+)?)")
+    neg = {"<": ">=", "<=": ">", ">": "<=", ">=": "<"}
+    flip = {"<": ">", "<=": ">=", ">": "<", ">=": "<="}
+    for fname, fn in ic.funcs.items():
+        if not fname.startswith("check_format_input"):
+            continue
+        texts = []
+        for c in ast.walk(fn):
+            if isinstance(c, ast.Call):
+                st = kw(c, "sig_type")
+                if st is not None:
+                    t = lit(st)
+                    texts.append(t if isinstance(t, str) else "")
+        cons = [m for t in texts for m in rel.findall(t or "")]
+        if not cons:
+            continue
+        raises = any(isinstance(x, ast.Raise) for x in ast.walk(fn))
+        cmps = set()
+        for c in ast.walk(fn):
+            if isinstance(c, ast.Compare) and len(c.ops) == 1:
+                op = {ast.Lt: "<", ast.LtE: "<=", ast.Gt: ">", ast.GtE: ">="}.get(type(c.ops[0]))
+                if op:
+                    a = re.sub(r"[\s()]", "", ast.unparse(c.left))
+                    b = re.sub(r"[\s()]", "", ast.unparse(c.comparators[0]))
+                    cmps.add((a, op, b))
+                    cmps.add((b, flip[op], a))
+        for a, op, b in cons:
+            n += 1
+            a_, b_ = re.sub(r"\s", "", a), re.sub(r"\s", "", b)
+            # enforced if the validator tests the violating condition (strict or not: the boundary convention is the validator's)
+            viol = {(a_, neg[op], b_), (a_, {"<": ">", "<=": ">", ">": "<", ">=": "<"}[op], b_)}
+            ok = raises and bool(viol & cmps)
+            res.ob(f"S3b:{fname}:{a_}{op}{b_}", ok, {"rule": "S3b", "validator": fname, "documented_constraint": f"{a_} {op} {b_}", "enforced": ok})
+            if not ok:
+                res.add(Finding("S3b", ic.rel, fname, f"documented constraint {a_} {op} {b_}",
+                                "the validator's own error text promises this constraint but no raising comparison of these quantities enforces it", fn.lineno))
+    res.analysed["S3b_documented_constraints"] = n
+    res.require(n >= 3, f"S3b: only {n} documented relational constraints found")
 
 
 # ------------------------------------------------------------------------------------------------ S4
@@ -601,6 +647,7 @@ def run(repo, res, tier):
                  "S5 None-flow", "S6 constructor = setter"]
     s1_s6(repo, res)
     s3(repo, res)
+    s3b(repo, res)
     s4(repo, res)
     none_flow(repo, res)
     extra = {}
